@@ -79,6 +79,32 @@ func runC12(h rmHist) (res *c12result, opens int64, loads int64) {
 				}
 			}
 		}
+		// the same through CacheMultiStoreWithVersion (what queries at a height use): committed
+		// content of that version, without the writes that are pending
+		for u := int64(1); u < v; u++ {
+			if !rmRetained(u, v-1, h.Pruning) {
+				continue
+			}
+			loads++
+			var cms stypes.CacheMultiStore
+			var lerr error
+			func() {
+				defer func() {
+					if r := recover(); r != nil {
+						lerr = fmt.Errorf("panic: %v", r)
+					}
+				}()
+				cms, lerr = s.rs.CacheMultiStoreWithVersion(u)
+			}()
+			if lerr != nil {
+				return fail("retained-version-unreadable-as-versioned-view", "while version %d is being written, CacheMultiStoreWithVersion(%d) failed: %v", v, u, lerr)
+			}
+			for i := 0; i < h.N; i++ {
+				if got, want := dumpStore(cms.GetKVStore(s.keys[i])), snaps[u][i].iterate(nil, nil, true); !pairsEqual(got, want) {
+					return fail("versioned-view-content", "while version %d is being written, the view of version %d shows store %s = [%s], committed at %d [%s]", v, u, rmName(i), pairsString(got), u, pairsString(want))
+				}
+			}
+		}
 		cid := s.rs.Commit()
 		if cid.Version != v {
 			return fail("commit-version", "commit %d returned version %d", v, cid.Version)
@@ -376,7 +402,7 @@ func C12(tier string) int {
 	run.Set("jobs", desc)
 	run.Set("reopens", opens)
 	run.Set("load_version_calls", loads)
-	run.Set("rule", "every write history (per version and per substore one of {nothing, k1=a, k1=b, delete k1, k2=a, k1=a+delete k2}) over N IAVL substores + 1 transient store, V versions, each of 7 pruning options, with store names s1,s2,... and again (N >= 2) with names that are proper prefixes of each other (acc, accounts); after every commit: reopen on a copy (LoadLatestVersion) and LoadVersion(u) for every u in 1..latest+1; before every commit: every retained version loaded on a CopyStore of the live multistore while the writes are pending; at the end: failed loads on the live handle, and a reopen under every other pruning option (eagerly, lazily, or with the options changed on the loaded store) followed by three commits, after which the versions committed since are loaded: those the new options retain must read as committed, the others must be gone. Histories are distinct by construction; non-trivial = the content of some store differs between two versions (a write or delete that takes effect)")
+	run.Set("rule", "every write history (per version and per substore one of {nothing, k1=a, k1=b, delete k1, k2=a, k1=a+delete k2}) over N IAVL substores + 1 transient store, V versions, each of 7 pruning options, with store names s1,s2,... and again (N >= 2) with names that are proper prefixes of each other (acc, accounts); after every commit: reopen on a copy (LoadLatestVersion) and LoadVersion(u) for every u in 1..latest+1; before every commit: every retained version loaded on a CopyStore of the live multistore and read through CacheMultiStoreWithVersion while the writes are pending; at the end: failed loads on the live handle, and a reopen under every other pruning option (eagerly, lazily, or with the options changed on the loaded store) followed by three commits, after which the versions committed since are loaded: those the new options retain must read as committed, the others must be gone. Histories are distinct by construction; non-trivial = the content of some store differs between two versions (a write or delete that takes effect)")
 	run.Sample(rmHist{N: 2, Choice: [][]int{{1, 4}, {3, 0}, {2, 5}}, Pruning: [2]int64{0, 2}}.String())
 	run.Assume("MemDB stands in for the on-disk database", "retention rule: commit w releases version w-1-keepRecent unless it is a multiple of keepEvery (store/iavl documentation)", "LoadVersion(0) is not judged (0 is not a committed version)")
 	return run.Finish()
